@@ -168,7 +168,7 @@ def oracle(case, obs, raw):
         if op == "inject" and o["rv"] == 0:
             # a reply carrying the request's id answers it (delivered or stashed): no longer outstanding
             for tg, rec in cur.items():
-                if rec is not None and rec.get("rid") and t[2].startswith(rec["rid"]):
+                if rec is not None and rec.get("rid") and (o.get("inj") or t[2]).startswith(rec["rid"]):
                     cur[tg] = None
         ready = [i for i, p in o["pipes"].items() if p.get("st") == "o" and p.get("nt") == 0]
         if op == "advance" and ready and tick > 0:
